@@ -16,7 +16,7 @@ EXTENDS Unparse, Json
 CONSTANT MaxItems
 
 \* body items; the body sees d (data passed by the composition) and o (a variable of the caller)
-ItemNames == {"text", "quote", "data", "outer", "loop", "cond", "trusted", "sub", "letd", "time"}
+ItemNames == {"text", "quote", "data", "outer", "loop", "cond", "trusted", "sub", "letd", "time", "nothing"}
 Item(n) ==
   CASE n = "text"    -> <<Text(<<"t", "<", "i", ">">>)>>
     [] n = "quote"   -> <<Text(<<"QUOT", "APOS", "=", "NL">>)>>
@@ -27,6 +27,8 @@ Item(n) ==
     [] n = "trusted" -> <<Emit(Call("raw", <<Str(<<"<", "b", ">">>)>>))>>
     [] n = "sub"     -> <<Text(<<"{">>), Emit(Call("partial", <<Str(<<"s", "u", "b">>), Hash(<<"d">>, <<Str(<<"s", "AMP">>)>>)>>)), Text(<<"}">>)>>
     [] n = "letd"    -> <<Let("d", Str(<<"l">>)), Emit(Id("d"))>>
+    \* renders to nothing at all (a body made of such items is the empty string: layouts, escaping still apply)
+    [] n = "nothing" -> <<Code(Bin("+", IntL(1), IntL(1))), Emit(For("", "v", Arr(<<>>), <<Text(<<"x">>)>>))>>
     \* a time.Time of the context: printed with the TIME_FORMAT visible where the output tag stands
     [] n = "time"    -> <<Text(<<"@">>), Emit(Id("tm"))>>
 SubPart == <<Text(<<"s", ":">>), Emit(Id("d")), Emit(Id("o"))>>
